@@ -109,6 +109,7 @@ func recvRetain() {
 	}
 	k := ks[kit.ChooseFree(len(ks))]
 	ledger.Install()
+	vt.Get("c17r").Wrap = kit.ChooseFree(2) == 1
 	x := k.Open("c17r", true, false)
 	x.Quiet()
 	recv := func(tag string, n int) *mangos.Message {
